@@ -367,9 +367,14 @@ class SgzConverter(SgzReader):
                                 buffer[u*self.chunk_bytes + z*self.unit_bytes:
                                        u*self.chunk_bytes + (z+1)*self.unit_bytes]
                         outfile.write(new_block)
-            self.read_variant_headers()
+            self.clear_variant_headers()
+            self.read_variant_headers(include_padding=True)
             for k, header_array in self.variant_headers.items():
-                outfile.write(header_array.tobytes())
+                header_bytes = header_array.tobytes()
+                # Keep the footer stride which readers derive for this file version
+                header_bytes += bytes(self.padded_header_entry_length_bytes - len(header_bytes))
+                outfile.write(header_bytes)
+            self.clear_variant_headers()
 
 
 class NumpyConverter(object):
